@@ -1,4 +1,4 @@
-"""C15 -- scopes and name tables agree with Python's symbol table (VGC rules R15.1-R15.11)."""
+"""C15 -- scopes and name tables agree with Python's symbol table (VGC rules R15.1-R15.12)."""
 from __future__ import annotations
 
 import ast
@@ -76,6 +76,9 @@ def check(ctx, res) -> None:
 
     line_table_rule(ctx, res, "R15.10")
     region_interval_rule(ctx, res, "R15.11")
+    from .common import import_binding_rule
+
+    import_binding_rule(ctx, res, "R15.12")
 
 
 def _check_main(ctx, res) -> None:
